@@ -603,6 +603,8 @@ const char *UtilContext::get_address(const char *token, uint32_t *address)
 
   if (ret == 0)
   {
+    // Symbols are in address units like the numbers typed by the user.
+    *address *= bytes_per_address;
     return end;
   }
 
